@@ -163,6 +163,14 @@ def render(case, info):
         elif k == 'copy':
             L.append(' '.join(x for x in ('copy', render_expr(op['src']),
                                           render_expr(op['dst']) if op.get('dst') is not None else '') if x))
+        elif k == 'defx':
+            e = render_expr(op['expr'])
+            L.append('def %s %s = %s' % (ref.X_TYPE[op['type']], op['name'],
+                                         {'ts': '-contents-of ' + e, 'pg': e, 'fs': 'dir-contents-of ' + e}[op['type']]))
+        elif k == 'usex':
+            typ = op['type']
+            L.append({'ts': 'file -rel-tmp o/%d = @[%s]@', 'pg': 'file -rel-tmp o/%d = -stdout-from @ %s',
+                      'fs': 'dir -rel-tmp o/%d = @[%s]@'}[typ] % (i, op['name']))
         elif k == 'read':
             site, e = op['site'], render_expr(op['expr'])
             if site == 'contents_of':
@@ -462,6 +470,10 @@ def check(case, subproc=False) -> Verdict:
                 labels.add('name-with-string-symbol')
             if u['cd_moved']:
                 labels.add('rel-cd-used-after-cd')
+            if u.get('typed_symbol'):
+                labels.add('path-inside-typed-symbol:%s' % u['site'])
+                if u['cd_moved']:
+                    labels.add('typed-symbol-rel-cd-used-after-cd')
             if u['depth'] >= 1 or u['form'] == 'option':
                 nontrivial = True
         if case['conf']['home'] or case['conf']['act_home']:
